@@ -484,10 +484,19 @@ func mkCollisions(traces map[[32]byte]*mkTunnelTrace) map[[32]byte]string {
 
 // ------------------------------------------------------------------ canary byte streams
 
-// mkGen fills p with the deterministic byte stream of (tunnel, dir) starting at offset off.
+// mkCanary is planted every 64 bytes in every application byte stream; a frame payload seen
+// on any inter-agent link that contains it (or the tunnel header magic) carries plaintext.
+const mkCanary = "VRFCNRY!"
+
+// mkGen fills p with the deterministic byte stream of (tunnel, dir) starting at offset off:
+// 64-byte blocks, each starting with the 8-byte canary followed by pseudo-random bytes.
 func mkGen(tunnel uint64, dir byte, off int64, p []byte) {
 	for i := range p {
 		o := off + int64(i)
+		if pos := o % 64; pos < 8 {
+			p[i] = mkCanary[pos]
+			continue
+		}
 		blk := uint64(o / 8)
 		x := tunnel*0x9e3779b97f4a7c15 ^ (uint64(dir)+1)*0xbf58476d1ce4e5b9 ^ blk*0x94d049bb133111eb
 		x ^= x >> 31
